@@ -5,6 +5,7 @@ package main
 
 import (
 	"fmt"
+	"os"
 	"math/rand"
 	"sort"
 	"strings"
@@ -155,6 +156,8 @@ type obsEntry struct {
 	label string
 	t     *Term
 }
+
+var dbgPaths = os.Getenv("DBGPATHS") != ""
 
 func (x *Explorer) pushAssert(c *Term) {
 	if x.model != nil && x.b.Eval(c, x.model, x.cache).u == 0 {
@@ -489,7 +492,7 @@ func (x *Explorer) runItem(fn *ssa.Function, item []Event) {
 						_ = v
 					case unsupported:
 						x.sh.mu.Lock()
-						x.sh.unsupported[string(v)]++
+						x.sh.unsupported[string(v)+" in "+x.e.userFunc()+"/"+x.e.topFunc()]++
 						x.sh.mu.Unlock()
 					default:
 						panic(r)
@@ -502,6 +505,13 @@ func (x *Explorer) runItem(fn *ssa.Function, item []Event) {
 		x.e.endPath()
 		x.sh.mu.Lock()
 		if completed {
+			if dbgPaths {
+				var sb strings.Builder
+				for _, ev := range x.events {
+					fmt.Fprintf(&sb, "%d:%d/%d ", ev.Kind, ev.Choice, len(ev.Alts))
+				}
+				fmt.Println("PATH", sb.String())
+			}
 			x.sh.Paths++
 			for _, k := range x.kf {
 				x.sh.kfSeen[k]++
